@@ -58,14 +58,20 @@ func SourceSummary(sourceFile *sourcedef_j5pb.SourceFile, ec ErrCollector) (*Fil
 
 		fs.TypeDependencies = append(fs.TypeDependencies, expanded.ref)
 
-		if expanded.imported == nil {
-			continue
-		}
 		depPackage := expanded.ref.Package
 		if _, ok := fs.DependencyPositions[depPackage]; ok {
 			continue
 		}
-		if pos := expanded.imported.position(); pos != nil {
+		var pos *errpos.Position
+		if expanded.imported != nil {
+			pos = expanded.imported.position()
+		}
+		if pos == nil {
+			// No import statement names the package: an implicit import, or
+			// the package of the file itself. The reference is what needs it.
+			pos = refSrc.Source.GetPos()
+		}
+		if pos != nil {
 			fs.DependencyPositions[depPackage] = pos
 		}
 	}
